@@ -105,10 +105,17 @@ fn replay(cases_path: &str, out_path: &str) {
         let lo = json_to_bytes(&c["lo"]);
         let hi = json_to_bytes(&c["hi"]);
         let mut runs: Vec<(&str, (bool, Vec<u8>, String))> = Vec::new();
+        // the 3DS container the case is wrapped in (default CTPK)
+        let cont = c["c"].as_str().unwrap_or("ctpk");
+        let via_cont = match cont {
+            "bch" => "bch::read",
+            "cgfx" => "cgfx::read",
+            _ => "ctpk::read",
+        };
         match api {
-            "ctpk" => runs.push(("ctpk::read", single(read_container("ctpk", &file), w, h))),
+            "ctpk" => runs.push((via_cont, single(read_container(cont, &file), w, h))),
             "etc" => {
-                runs.push(("ctpk::read", single(read_container("ctpk", &file), w, h)));
+                runs.push((via_cont, single(read_container(cont, &file), w, h)));
                 runs.push(("mila::decode", etc_decode(&payload, w, h, fmt == 13)));
             }
             "tpl" => runs.push(("Tpl::extract_textures", single(read_container("tpl", &file), w, h))),
@@ -229,17 +236,20 @@ fn record(templates_path: &str, out_path: &str) {
             "ctpk" => {
                 let (fmt, w, h) = (u(&t["fmt"]), u(&t["w"]), u(&t["h"]));
                 let head = json_to_bytes(&t["head"]);
+                let cont = t["c"].as_str().unwrap_or("ctpk").to_string();
                 let run = |payload: &[u8]| {
                     let mut f = head.clone();
                     f.extend_from_slice(payload);
-                    single(read_container("ctpk", &f), w, h)
+                    single(read_container(&cont, &f), w, h)
                 };
                 if is_etc(fmt) {
                     for _ in 0..n_rand {
                         let p = random_etc(&mut rng, w, h, fmt == 13);
-                        rec.ev("tex", "ctpk", "random", fmt, w, h, &p, &[], run(&p));
-                        let p = random_etc(&mut rng, w, h, fmt == 13);
-                        rec.ev("tex", "decode", "random", fmt, w, h, &p, &[], etc_decode(&p, w, h, fmt == 13));
+                        rec.ev("tex", &cont, "random", fmt, w, h, &p, &[], run(&p));
+                        if cont == "ctpk" {
+                            let p = random_etc(&mut rng, w, h, fmt == 13);
+                            rec.ev("tex", "decode", "random", fmt, w, h, &p, &[], etc_decode(&p, w, h, fmt == 13));
+                        }
                     }
                     continue;
                 }
@@ -249,7 +259,7 @@ fn record(templates_path: &str, out_path: &str) {
                 for i in 0..w * h {
                     p.extend_from_slice(&(i as u32).to_le_bytes()[..b]);
                 }
-                rec.ev("tex", "ctpk", "position", fmt, w, h, &p, &[], run(&p));
+                rec.ev("tex", &cont, "position", fmt, w, h, &p, &[], run(&p));
                 // byte lanes (RGBA8): one lane varies with the position, the others are constant
                 if b == 4 && n_rand > 0 {
                     for lane in 0..4 {
@@ -260,7 +270,7 @@ fn record(templates_path: &str, out_path: &str) {
                             px[lane] = (i * 37 + lane * 11) as u8;
                             p.extend_from_slice(&px);
                         }
-                        rec.ev("tex", "ctpk", "lane", fmt, w, h, &p, &[], run(&p));
+                        rec.ev("tex", &cont, "lane", fmt, w, h, &p, &[], run(&p));
                     }
                 }
                 // every 16-bit value, on the largest template
@@ -272,13 +282,13 @@ fn record(templates_path: &str, out_path: &str) {
                         for i in 0..per {
                             p.extend_from_slice(&(((v + i) % 65536) as u16).to_le_bytes());
                         }
-                        rec.ev("tex", "ctpk", "all16", fmt, w, h, &p, &[], run(&p));
+                        rec.ev("tex", &cont, "all16", fmt, w, h, &p, &[], run(&p));
                         v += per;
                     }
                 }
                 for _ in 0..n_rand {
                     let p = rng.bytes(w * h * b);
-                    rec.ev("tex", "ctpk", "random", fmt, w, h, &p, &[], run(&p));
+                    rec.ev("tex", &cont, "random", fmt, w, h, &p, &[], run(&p));
                 }
             }
             "tpl" => {
@@ -340,6 +350,59 @@ fn record(templates_path: &str, out_path: &str) {
 }
 
 // ------------------------------------------------------------------------------------------------ readers (C20)
+fn tex_json(t: &[Tex], keys: Option<&[String]>) -> Value {
+    Value::Array(
+        t.iter()
+            .enumerate()
+            .map(|(i, t)| {
+                let key = keys.map(|k| k[i].clone()).unwrap_or_else(|| t.name.clone());
+                json!({"key": str_to_codes(&key), "name": str_to_codes(&t.name), "w": t.w, "h": t.h, "pixels": bytes_to_json(&t.px)})
+            })
+            .collect(),
+    )
+}
+
+/// The same file written into a LayeredFilesystem (FE14: `.lz` names are LZ13-compressed on write and
+/// expanded on read) and read back with the typed texture readers.  3DS containers come back as a map
+/// keyed by name: returned as (keys, textures) in arbitrary order.
+fn lfs_read(cont: &str, file: &[u8], fname: &str) -> Result<(Vec<String>, Vec<Tex>), String> {
+    use mila::{Game, Language, LayeredFilesystem};
+    let dir = std::env::temp_dir().join(format!("mvhtex{}", std::process::id()));
+    let _ = std::fs::remove_dir_all(&dir);
+    std::fs::create_dir_all(&dir).map_err(|e| format!("mkdir: {}", e))?;
+    let r = catch(|| -> Result<(Vec<String>, Vec<Tex>), String> {
+        let fs = LayeredFilesystem::new(vec![dir.display().to_string()], Language::EnglishNA, Game::FE14)
+            .map_err(|e| format!("new: {:?}", e))?;
+        fs.write(fname, file, false).map_err(|e| format!("write: {:?}", e))?;
+        let map = match cont {
+            "ctpk" => fs.read_ctpk_textures(fname, false),
+            "bch" => fs.read_bch_textures(fname, false),
+            "cgfx" => fs.read_cgfx_textures(fname, false),
+            _ => {
+                let v = fs.read_tpl_textures(fname, false).map_err(|e| format!("read: {:?}", e))?;
+                let t = conv(v);
+                return Ok((t.iter().map(|t| t.name.clone()).collect(), t));
+            }
+        }
+        .map_err(|e| format!("read: {:?}", e))?;
+        let mut keys = Vec::new();
+        let mut tex = Vec::new();
+        // (the map's iteration order is arbitrary: sorted by key to make the log reproducible)
+        let mut entries: Vec<(String, Texture)> = map.into_iter().collect();
+        entries.sort_by(|a, b| a.0.cmp(&b.0));
+        for (k, t) in entries {
+            keys.push(k);
+            tex.push(Tex { name: t.filename, w: t.width, h: t.height, px: t.pixel_data });
+        }
+        Ok((keys, tex))
+    });
+    let _ = std::fs::remove_dir_all(&dir);
+    match r {
+        Ok(x) => x,
+        Err(p) => Err(format!("panic {}", p)),
+    }
+}
+
 fn names_dims(t: &[Tex]) -> Value {
     Value::Array(t.iter().map(|t| json!({"name": str_to_codes(&t.name), "w": t.w, "h": t.h})).collect())
 }
@@ -348,7 +411,7 @@ fn names_dims(t: &[Tex]) -> Value {
 /// Result: the full reading compared with exp; the outcome class of every strict prefix compared with
 /// min_ok (a prefix shorter than min_ok must be an error, none may panic); where `magic`, a damaged magic
 /// number must be an error.  Second value: the trace line {id, c, v, ok, out} for Trace_TexContainers.
-fn readers_case(c: &Value) -> (Value, Value) {
+fn readers_case(c: &Value) -> (Value, Vec<Value>) {
     let cont = c["c"].as_str().unwrap();
     let file = json_to_bytes(&c["file"]);
     let min_ok = u(&c["min_ok"]);
@@ -359,11 +422,7 @@ fn readers_case(c: &Value) -> (Value, Value) {
             if names_dims(&t) != c["exp"] {
                 problems.push(json!({"what": "full", "got": names_dims(&t)}));
             }
-            let o: Vec<Value> = t
-                .iter()
-                .map(|t| json!({"name": str_to_codes(&t.name), "w": t.w, "h": t.h, "pixels": bytes_to_json(&t.px)}))
-                .collect();
-            ("ok", Value::Array(o))
+            ("ok", tex_json(&t, None))
         }
         Out::Err(e) => {
             problems.push(json!({"what": "full", "got": format!("Err({})", e)}));
@@ -374,7 +433,23 @@ fn readers_case(c: &Value) -> (Value, Value) {
             ("panic", json!([]))
         }
     };
-    let line = json!({"id": c["id"], "c": cont, "v": c["v"], "ok": full_class == "ok", "out": out_json});
+    let mut lines = vec![json!({"id": c["id"], "c": cont, "v": c["v"], "mode": "list", "via": "direct",
+                                "ok": full_class == "ok", "out": out_json})];
+    // a sample of the files (first placement of every list, small files) also through the layered filesystem
+    if c["id"][2] == 1 && file.len() <= 8192 {
+        for fname in ["tex.bin", "tex.bin.lz"] {
+            let mode = if cont == "tpl" { "list" } else { "map" };
+            let (ok, out) = match lfs_read(cont, &file, fname) {
+                Ok((keys, tex)) => (true, tex_json(&tex, Some(&keys))),
+                Err(e) => {
+                    problems.push(json!({"what": "layered filesystem", "file": fname, "got": e}));
+                    (false, json!([]))
+                }
+            };
+            lines.push(json!({"id": c["id"], "c": cont, "v": c["v"], "mode": mode, "via": format!("lfs:{}", fname),
+                              "ok": ok, "out": out}));
+        }
+    }
     // every strict prefix
     let mut ok_prefixes = 0usize;
     let mut err_prefixes = 0usize;
@@ -426,7 +501,7 @@ fn readers_case(c: &Value) -> (Value, Value) {
     (
         json!({"id": c["id"], "c": cont, "len": file.len(), "full": full_class, "ok_prefixes": ok_prefixes,
                "err_prefixes": err_prefixes, "first_ok": first_ok, "magic_cases": magic_cases, "problems": problems}),
-        line,
+        lines,
     )
 }
 
@@ -446,9 +521,11 @@ fn main() {
             // the trace is appended to: the supervisor restarts this process after a case that died
             let mut tf = std::fs::OpenOptions::new().create(true).append(true).open(&a[4]).expect("open trace");
             run_isolated(&cases, from, &a[3], |_i, c| {
-                let (r, line) = readers_case(c);
-                serde_json::to_writer(&mut tf, &line).unwrap();
-                tf.write_all(b"\n").unwrap();
+                let (r, lines) = readers_case(c);
+                for line in lines {
+                    serde_json::to_writer(&mut tf, &line).unwrap();
+                    tf.write_all(b"\n").unwrap();
+                }
                 tf.flush().unwrap();
                 r
             });
